@@ -1,3 +1,3 @@
 #!/bin/bash
 export GOFLAGS=-mod=mod GOPROXY=off GOSUMDB=off GOTOOLCHAIN=local
-for s in 11 12 13; do for p in C03 C05 C14 C16 C17 C18; do VERIF_SEED=$s ./check $p --tier quick --nomin 2>&1 | grep -v "^$" | tail -3 | cut -c1-400; done; done
+for s in ${SWEEP_SEEDS:-31 32}; do for p in C02 C03 C04 C05 C06 C07 C08 C10 C13 C14 C15 C16 C17 C18 C20; do VERIF_SEED=$s ./check $p --tier ${SWEEP_TIER:-quick} --nomin 2>&1 | grep -v "^$" | grep -a "VIOLATION\|seed=\|MACHINERY\|KNOWN\|warning\|exit=" | cut -c1-400; done; done
